@@ -5,41 +5,41 @@ From TL Require Import Lib.Base Lib.GenTypes Model.ConfigTypes Gen.ConfigGen Mod
 From Coq Require Import ZArith.
 
 Definition w_section_not_read_improper_logging : case :=
-  {| c_proj := {| p_yaml := (Doc [("improper-logging", VMap [("enabled", VBool false)])]); p_json := Absent; p_pyproject := Absent; p_dash := None |}; c_cmd := "improper-logging"; c_unit := "improper-logging"; c_lang := "python"; c_fname := "case_src.py"; c_overrides := []; c_metrics := [("print", (1)%Z)] |}.
+  {| c_proj := {| p_yaml := (Doc [("improper-logging", VMap [("enabled", VBool false)])]); p_json := Absent; p_pyproject := Absent; p_dash := None; p_ignore_file := []; p_subdir := false |}; c_cmd := "improper-logging"; c_unit := "improper-logging"; c_lang := "python"; c_fname := "case_src.py"; c_overrides := []; c_metrics := [("print", (1)%Z)] |}.
 Definition w_section_not_read_stateless_class : case :=
-  {| c_proj := {| p_yaml := (Doc [("stateless-class", VMap [("enabled", VBool false)])]); p_json := Absent; p_pyproject := Absent; p_dash := None |}; c_cmd := "stateless-class"; c_unit := "stateless-class"; c_lang := "python"; c_fname := "case_src.py"; c_overrides := []; c_metrics := [("methods", (2)%Z)] |}.
+  {| c_proj := {| p_yaml := (Doc [("stateless-class", VMap [("enabled", VBool false)])]); p_json := Absent; p_pyproject := Absent; p_dash := None; p_ignore_file := []; p_subdir := false |}; c_cmd := "stateless-class"; c_unit := "stateless-class"; c_lang := "python"; c_fname := "case_src.py"; c_overrides := []; c_metrics := [("methods", (2)%Z)] |}.
 Definition w_section_not_read_lazy_ignores : case :=
-  {| c_proj := {| p_yaml := (Doc [("lazy-ignores", VMap [("enabled", VBool false)])]); p_json := Absent; p_pyproject := Absent; p_dash := None |}; c_cmd := "lazy-ignores"; c_unit := "lazy-ignores"; c_lang := "python"; c_fname := "case_src.py"; c_overrides := []; c_metrics := [("noqa", (1)%Z)] |}.
+  {| c_proj := {| p_yaml := (Doc [("lazy-ignores", VMap [("enabled", VBool false)])]); p_json := Absent; p_pyproject := Absent; p_dash := None; p_ignore_file := []; p_subdir := false |}; c_cmd := "lazy-ignores"; c_unit := "lazy-ignores"; c_lang := "python"; c_fname := "case_src.py"; c_overrides := []; c_metrics := [("noqa", (1)%Z)] |}.
 Definition w_section_not_read_unwrap_abuse : case :=
-  {| c_proj := {| p_yaml := (Doc [("unwrap-abuse", VMap [("enabled", VBool false)])]); p_json := Absent; p_pyproject := Absent; p_dash := None |}; c_cmd := "unwrap-abuse"; c_unit := "unwrap-abuse"; c_lang := "rust"; c_fname := "case_src.rs"; c_overrides := []; c_metrics := [("unwrap", (1)%Z)] |}.
+  {| c_proj := {| p_yaml := (Doc [("unwrap-abuse", VMap [("enabled", VBool false)])]); p_json := Absent; p_pyproject := Absent; p_dash := None; p_ignore_file := []; p_subdir := false |}; c_cmd := "unwrap-abuse"; c_unit := "unwrap-abuse"; c_lang := "rust"; c_fname := "case_src.rs"; c_overrides := []; c_metrics := [("unwrap", (1)%Z)] |}.
 Definition w_section_not_read_clone_abuse : case :=
-  {| c_proj := {| p_yaml := Absent; p_json := (Doc [("clone_abuse", VMap [("enabled", VBool false)])]); p_pyproject := Absent; p_dash := None |}; c_cmd := "clone-abuse"; c_unit := "clone-abuse"; c_lang := "rust"; c_fname := "case_src.rs"; c_overrides := []; c_metrics := [("clone_in_loop", (1)%Z)] |}.
+  {| c_proj := {| p_yaml := Absent; p_json := (Doc [("clone_abuse", VMap [("enabled", VBool false)])]); p_pyproject := Absent; p_dash := None; p_ignore_file := []; p_subdir := false |}; c_cmd := "clone-abuse"; c_unit := "clone-abuse"; c_lang := "rust"; c_fname := "case_src.rs"; c_overrides := []; c_metrics := [("clone_in_loop", (1)%Z)] |}.
 Definition w_section_not_read_blocking_async : case :=
-  {| c_proj := {| p_yaml := Absent; p_json := Absent; p_pyproject := (Doc [("blocking-async", VMap [("detect_sleep_in_async", VBool false)])]); p_dash := None |}; c_cmd := "blocking-async"; c_unit := "blocking-async"; c_lang := "rust"; c_fname := "case_src.rs"; c_overrides := []; c_metrics := [("fs_in_async", (1)%Z); ("sleep_in_async", (1)%Z)] |}.
+  {| c_proj := {| p_yaml := Absent; p_json := Absent; p_pyproject := (Doc [("blocking-async", VMap [("detect_sleep_in_async", VBool false)])]); p_dash := None; p_ignore_file := []; p_subdir := false |}; c_cmd := "blocking-async"; c_unit := "blocking-async"; c_lang := "rust"; c_fname := "case_src.rs"; c_overrides := []; c_metrics := [("fs_in_async", (1)%Z); ("sleep_in_async", (1)%Z)] |}.
 Definition w_enabled_option_missing_file_header : case :=
-  {| c_proj := {| p_yaml := (Doc [("file-header", VMap [("enabled", VBool false)])]); p_json := Absent; p_pyproject := Absent; p_dash := None |}; c_cmd := "file-header"; c_unit := "file-header"; c_lang := "python"; c_fname := "case_src.py"; c_overrides := []; c_metrics := [("no_header", (1)%Z)] |}.
+  {| c_proj := {| p_yaml := (Doc [("file-header", VMap [("enabled", VBool false)])]); p_json := Absent; p_pyproject := Absent; p_dash := None; p_ignore_file := []; p_subdir := false |}; c_cmd := "file-header"; c_unit := "file-header"; c_lang := "python"; c_fname := "case_src.py"; c_overrides := []; c_metrics := [("no_header", (1)%Z)] |}.
 Definition w_whole_config_fallback_collection_pipeline : case :=
-  {| c_proj := {| p_yaml := (Doc [("min_continues", VInt (3)%Z)]); p_json := Absent; p_pyproject := Absent; p_dash := None |}; c_cmd := "pipeline"; c_unit := "collection-pipeline"; c_lang := "python"; c_fname := "case_src.py"; c_overrides := []; c_metrics := [("continues", (1)%Z)] |}.
+  {| c_proj := {| p_yaml := (Doc [("min_continues", VInt (3)%Z)]); p_json := Absent; p_pyproject := Absent; p_dash := None; p_ignore_file := []; p_subdir := false |}; c_cmd := "pipeline"; c_unit := "collection-pipeline"; c_lang := "python"; c_fname := "case_src.py"; c_overrides := []; c_metrics := [("continues", (1)%Z)] |}.
 Definition w_language_override_ignored_dry : case :=
-  {| c_proj := {| p_yaml := (Doc [("dry", VMap [("enabled", VBool true); ("python", VMap [("min_duplicate_lines", VInt (6)%Z)])])]); p_json := Absent; p_pyproject := Absent; p_dash := None |}; c_cmd := "dry"; c_unit := "dry"; c_lang := "python"; c_fname := "case_src.py"; c_overrides := []; c_metrics := [("dup_lines", (4)%Z)] |}.
+  {| c_proj := {| p_yaml := (Doc [("dry", VMap [("enabled", VBool true); ("python", VMap [("min_duplicate_lines", VInt (6)%Z)])])]); p_json := Absent; p_pyproject := Absent; p_dash := None; p_ignore_file := []; p_subdir := false |}; c_cmd := "dry"; c_unit := "dry"; c_lang := "python"; c_fname := "case_src.py"; c_overrides := []; c_metrics := [("dup_lines", (4)%Z)] |}.
 Definition w_cli_override_skips_language_sections_nesting : case :=
-  {| c_proj := {| p_yaml := (Doc [("nesting", VMap [("rust", VMap [("max_nesting_depth", VInt (1)%Z)])])]); p_json := Absent; p_pyproject := Absent; p_dash := None |}; c_cmd := "nesting"; c_unit := "nesting"; c_lang := "rust"; c_fname := "case_src.rs"; c_overrides := [("--max-depth", (9)%Z)]; c_metrics := [("depth", (3)%Z)] |}.
+  {| c_proj := {| p_yaml := (Doc [("nesting", VMap [("rust", VMap [("max_nesting_depth", VInt (1)%Z)])])]); p_json := Absent; p_pyproject := Absent; p_dash := None; p_ignore_file := []; p_subdir := false |}; c_cmd := "nesting"; c_unit := "nesting"; c_lang := "rust"; c_fname := "case_src.rs"; c_overrides := [("--max-depth", (9)%Z)]; c_metrics := [("depth", (3)%Z)] |}.
 Definition w_cli_override_skips_language_sections_srp : case :=
-  {| c_proj := {| p_yaml := (Doc [("srp", VMap [("python", VMap [("max_methods", VInt (3)%Z)])])]); p_json := Absent; p_pyproject := Absent; p_dash := None |}; c_cmd := "srp"; c_unit := "srp"; c_lang := "python"; c_fname := "case_src.py"; c_overrides := [("--max-methods", (20)%Z)]; c_metrics := [("methods", (8)%Z)] |}.
+  {| c_proj := {| p_yaml := (Doc [("srp", VMap [("python", VMap [("max_methods", VInt (3)%Z)])])]); p_json := Absent; p_pyproject := Absent; p_dash := None; p_ignore_file := []; p_subdir := false |}; c_cmd := "srp"; c_unit := "srp"; c_lang := "python"; c_fname := "case_src.py"; c_overrides := [("--max-methods", (20)%Z)]; c_metrics := [("methods", (8)%Z)] |}.
 Definition w_repo_ignore_not_loaded_json : case :=
-  {| c_proj := {| p_yaml := Absent; p_json := (Doc [("ignore", VList [(VStr "case_src.py")])]); p_pyproject := Absent; p_dash := None |}; c_cmd := "magic-numbers"; c_unit := "magic-numbers"; c_lang := "python"; c_fname := "case_src.py"; c_overrides := []; c_metrics := [("value", (4242)%Z)] |}.
+  {| c_proj := {| p_yaml := Absent; p_json := (Doc [("ignore", VList [(VStr "case_src.py")])]); p_pyproject := Absent; p_dash := None; p_ignore_file := []; p_subdir := false |}; c_cmd := "magic-numbers"; c_unit := "magic-numbers"; c_lang := "python"; c_fname := "case_src.py"; c_overrides := []; c_metrics := [("value", (4242)%Z)] |}.
 Definition w_repo_ignore_not_loaded_pyproject : case :=
-  {| c_proj := {| p_yaml := Absent; p_json := Absent; p_pyproject := (Doc [("ignore", VList [(VStr "case_src.py")])]); p_dash := None |}; c_cmd := "magic-numbers"; c_unit := "magic-numbers"; c_lang := "python"; c_fname := "case_src.py"; c_overrides := []; c_metrics := [("value", (4242)%Z)] |}.
+  {| c_proj := {| p_yaml := Absent; p_json := Absent; p_pyproject := (Doc [("ignore", VList [(VStr "case_src.py")])]); p_dash := None; p_ignore_file := []; p_subdir := false |}; c_cmd := "magic-numbers"; c_unit := "magic-numbers"; c_lang := "python"; c_fname := "case_src.py"; c_overrides := []; c_metrics := [("value", (4242)%Z)] |}.
 Definition w_repo_ignore_not_loaded_dash_config : case :=
-  {| c_proj := {| p_yaml := Absent; p_json := Absent; p_pyproject := Absent; p_dash := (Some {| d_pos := PosCmd; d_suffix := ".yaml"; d_file := (Doc [("ignore", VList [(VStr "case_src.py")])]) |}) |}; c_cmd := "magic-numbers"; c_unit := "magic-numbers"; c_lang := "python"; c_fname := "case_src.py"; c_overrides := []; c_metrics := [("value", (4242)%Z)] |}.
+  {| c_proj := {| p_yaml := Absent; p_json := Absent; p_pyproject := Absent; p_dash := (Some {| d_pos := PosCmd; d_suffix := ".yaml"; d_file := (Doc [("ignore", VList [(VStr "case_src.py")])]) |}); p_ignore_file := []; p_subdir := false |}; c_cmd := "magic-numbers"; c_unit := "magic-numbers"; c_lang := "python"; c_fname := "case_src.py"; c_overrides := []; c_metrics := [("value", (4242)%Z)] |}.
 Definition w_global_config_option_ignored : case :=
-  {| c_proj := {| p_yaml := Absent; p_json := Absent; p_pyproject := Absent; p_dash := (Some {| d_pos := PosGlobal; d_suffix := ".yaml"; d_file := (Doc [("nesting", VMap [("enabled", VBool false)])]) |}) |}; c_cmd := "nesting"; c_unit := "nesting"; c_lang := "python"; c_fname := "case_src.py"; c_overrides := []; c_metrics := [("depth", (6)%Z)] |}.
+  {| c_proj := {| p_yaml := Absent; p_json := Absent; p_pyproject := Absent; p_dash := (Some {| d_pos := PosGlobal; d_suffix := ".yaml"; d_file := (Doc [("nesting", VMap [("enabled", VBool false)])]) |}); p_ignore_file := []; p_subdir := false |}; c_cmd := "nesting"; c_unit := "nesting"; c_lang := "python"; c_fname := "case_src.py"; c_overrides := []; c_metrics := [("depth", (6)%Z)] |}.
 Definition w_dry_config_option_merges_section_only : case :=
-  {| c_proj := {| p_yaml := (Doc [("dry", VMap [("enabled", VBool true)])]); p_json := Absent; p_pyproject := Absent; p_dash := (Some {| d_pos := PosCmd; d_suffix := ".yaml"; d_file := (Doc [("nesting", VMap [("max_nesting_depth", VInt (3)%Z)])]) |}) |}; c_cmd := "dry"; c_unit := "dry"; c_lang := "python"; c_fname := "case_src.py"; c_overrides := []; c_metrics := [("dup_lines", (4)%Z)] |}.
+  {| c_proj := {| p_yaml := (Doc [("dry", VMap [("enabled", VBool true)])]); p_json := Absent; p_pyproject := Absent; p_dash := (Some {| d_pos := PosCmd; d_suffix := ".yaml"; d_file := (Doc [("nesting", VMap [("max_nesting_depth", VInt (3)%Z)])]) |}); p_ignore_file := []; p_subdir := false |}; c_cmd := "dry"; c_unit := "dry"; c_lang := "python"; c_fname := "case_src.py"; c_overrides := []; c_metrics := [("dup_lines", (4)%Z)] |}.
 Definition w_pyproject_unparsable_swallowed : case :=
-  {| c_proj := {| p_yaml := Absent; p_json := Absent; p_pyproject := Unparsable; p_dash := None |}; c_cmd := "nesting"; c_unit := "nesting"; c_lang := "python"; c_fname := "case_src.py"; c_overrides := []; c_metrics := [("depth", (6)%Z)] |}.
+  {| c_proj := {| p_yaml := Absent; p_json := Absent; p_pyproject := Unparsable; p_dash := None; p_ignore_file := []; p_subdir := false |}; c_cmd := "nesting"; c_unit := "nesting"; c_lang := "python"; c_fname := "case_src.py"; c_overrides := []; c_metrics := [("depth", (6)%Z)] |}.
 Definition w_wrong_type_swallowed : case :=
-  {| c_proj := {| p_yaml := (Doc [("nesting", VMap [("max_nesting_depth", VStr "four")])]); p_json := Absent; p_pyproject := Absent; p_dash := None |}; c_cmd := "nesting"; c_unit := "nesting"; c_lang := "python"; c_fname := "case_src.py"; c_overrides := []; c_metrics := [("depth", (6)%Z)] |}.
+  {| c_proj := {| p_yaml := (Doc [("nesting", VMap [("max_nesting_depth", VStr "four")])]); p_json := Absent; p_pyproject := Absent; p_dash := None; p_ignore_file := []; p_subdir := false |}; c_cmd := "nesting"; c_unit := "nesting"; c_lang := "python"; c_fname := "case_src.py"; c_overrides := []; c_metrics := [("depth", (6)%Z)] |}.
 
 Theorem C05_section_not_read_improper_logging_refuted : run config_actual w_section_not_read_improper_logging <> spec w_section_not_read_improper_logging /\ run ideal w_section_not_read_improper_logging = spec w_section_not_read_improper_logging.
 Proof. vm_compute. split; [discriminate|reflexivity]. Qed.
@@ -102,12 +102,18 @@ Theorem C05_wrong_type_swallowed_refuted : run config_actual w_wrong_type_swallo
 Proof. vm_compute. split; [discriminate|reflexivity]. Qed.
 
 Definition w_language_block_error_retried_without_language : case :=
-  {| c_proj := {| p_yaml := (Doc [("nesting", VMap [("max_nesting_depth", VInt (2)%Z); ("python", VMap [("max_nesting_depth", VStr "four")])])]); p_json := Absent; p_pyproject := Absent; p_dash := None |}; c_cmd := "nesting"; c_unit := "nesting"; c_lang := "python"; c_fname := "case_src.py"; c_overrides := []; c_metrics := [("depth", (5)%Z)] |}.
+  {| c_proj := {| p_yaml := (Doc [("nesting", VMap [("max_nesting_depth", VInt (2)%Z); ("python", VMap [("max_nesting_depth", VStr "four")])])]); p_json := Absent; p_pyproject := Absent; p_dash := None; p_ignore_file := []; p_subdir := false |}; c_cmd := "nesting"; c_unit := "nesting"; c_lang := "python"; c_fname := "case_src.py"; c_overrides := []; c_metrics := [("depth", (5)%Z)] |}.
 Definition w_invalid_top_level_value_shadowed_by_language_block : case :=
-  {| c_proj := {| p_yaml := Absent; p_json := (Doc [("srp", VMap [("max_methods", VInt (0)%Z); ("typescript", VMap [("max_methods", VInt (2)%Z)])])]); p_pyproject := Absent; p_dash := None |}; c_cmd := "srp"; c_unit := "srp"; c_lang := "typescript"; c_fname := "case_src.ts"; c_overrides := []; c_metrics := [("methods", (9)%Z)] |}.
+  {| c_proj := {| p_yaml := Absent; p_json := (Doc [("srp", VMap [("max_methods", VInt (0)%Z); ("typescript", VMap [("max_methods", VInt (2)%Z)])])]); p_pyproject := Absent; p_dash := None; p_ignore_file := []; p_subdir := false |}; c_cmd := "srp"; c_unit := "srp"; c_lang := "typescript"; c_fname := "case_src.ts"; c_overrides := []; c_metrics := [("methods", (9)%Z)] |}.
 
 Theorem C05_language_block_error_retried_without_language_refuted : run config_actual w_language_block_error_retried_without_language <> spec w_language_block_error_retried_without_language /\ run ideal w_language_block_error_retried_without_language = spec w_language_block_error_retried_without_language.
 Proof. vm_compute. split; [discriminate|reflexivity]. Qed.
 
 Theorem C05_invalid_top_level_value_shadowed_by_language_block_refuted : run config_actual w_invalid_top_level_value_shadowed_by_language_block <> spec w_invalid_top_level_value_shadowed_by_language_block /\ run ideal w_invalid_top_level_value_shadowed_by_language_block = spec w_invalid_top_level_value_shadowed_by_language_block.
+Proof. vm_compute. split; [discriminate|reflexivity]. Qed.
+
+Definition w_thailint_json_is_not_a_root_marker : case :=
+  {| c_proj := {| p_yaml := Absent; p_json := (Doc [("nesting", VMap [("enabled", VBool false)])]); p_pyproject := Absent; p_dash := None; p_ignore_file := []; p_subdir := true |}; c_cmd := "nesting"; c_unit := "nesting"; c_lang := "python"; c_fname := "pkg/case_src.py"; c_overrides := []; c_metrics := [("depth", (5)%Z)] |}.
+
+Theorem C05_thailint_json_is_not_a_root_marker_refuted : run config_actual w_thailint_json_is_not_a_root_marker <> spec w_thailint_json_is_not_a_root_marker /\ run ideal w_thailint_json_is_not_a_root_marker = spec w_thailint_json_is_not_a_root_marker.
 Proof. vm_compute. split; [discriminate|reflexivity]. Qed.
